@@ -73,8 +73,8 @@ theorem interpreter_name_eq_model (cfg : Cfg) :
   erw [hd]
   simp only [ok_bind, interpreterName]
   cases Gen.TagTables.interpreterShortNames.lookup cfg.implName with
-  | none => simp
-  | some v => cases v <;> simp
+  | none => simp [or_]
+  | some v => cases v <;> simp [or_]
 
 /-! ### `interpreter_version` -/
 
